@@ -91,7 +91,7 @@ def main():
     res["existing_tests_pass_with_change"] = tests_ok
     # our check against the changed tree
     t = time.time()
-    rcc, outc = sh(["./check", prop], cwd=R, env={"VERIF_REPO": wt}, timeout=3400)
+    rcc, outc = sh(["./check", prop], cwd=R, env={"VERIF_REPO": wt}, timeout=9000)
     viol = [l for l in outc.splitlines() if l.startswith("VIOLATION")]
     res["check"] = {"cmd": "VERIF_REPO=%s ./check %s" % (wt, prop), "rc": rcc, "violation_lines": viol[:4],
                     "failed_obligations": [l[:300] for l in outc.splitlines() if "OBLIGATION FAILED" in l][:6],
